@@ -26,7 +26,7 @@ func runC10(c *Ctx) {
 	p := c.Prog
 	c.Rule("R10.1", "special-case dispatch order: each handler runs under the negation of all earlier predicates and its own predicate", 6)
 	c.Rule("R10.1b", "rollback predicates are true only for a real rollback; rollback-in-batches is refused with any traffic routing", 3)
-	c.Rule("R10.2", "Cancelling: entered from direct rollback only, finalises with reason Rollback, reports not-succeeded only after done", 5)
+	c.Rule("R10.2", "Cancelling: entered from direct rollback only, finalises with reason Rollback, reports not-succeeded only after done", 4)
 	c.Rule("R10.3", "blue-green refuses supersession: reset unreachable for blue-green, BadRequest swallowed without transition", 3)
 	c.Rule("R10.4", "restart from step one only after the reset reported done", 2)
 	c.Rule("R4.1", "rollback task sequences start with RouteTrafficToStable (K3)", 2)
